@@ -9,6 +9,7 @@
 -/
 import TradingVerif.Lemmas.Valuation
 import TradingVerif.Lemmas.Settled
+import TradingVerif.Lemmas.Accounts
 import Mathlib.Algebra.Order.Field.Rat
 import TradingVerif.Model.Legacy
 set_option linter.unusedSectionVars false
